@@ -2146,7 +2146,7 @@ func vfFamBGenForeign(r *rapid.T, dirFocus bool) vfFamBFCase {
 // pion-pair histories: two PeerConnections exchanging descriptions in-process (C06, C09, C10)
 
 type vfFamBPOp struct {
-	Op   string `json:"op"`   // negotiate | addTrack | addKind | removeTrack | stop | dc
+	Op   string `json:"op"`   // negotiate | addTrack | addKind | removeTrack | stop | dc | discardOffer (A=1: applied, then rolled back)
 	Peer int    `json:"peer"` // who acts; for negotiate: who offers
 	Kind string `json:"kind,omitempty"`
 	Dir  string `json:"dir,omitempty"`
@@ -2173,6 +2173,7 @@ type vfFamBPEvent struct {
 	OfferSeen string // for answers: the offer text the answerer applied
 	Round     int    // number of negotiate ops started so far (1-based)
 	Step      int
+	Discarded bool // an offer that is never answered (superseded, or applied and rolled back)
 }
 
 type vfFamBPStats struct {
@@ -2247,6 +2248,32 @@ func vfFamBRunPair(v *vfT, c vfFamBPCase, onDesc func(ev vfFamBPEvent), onStep f
 			st.Rounds++
 			st.Offered[p] = true
 			v.Label("round-ok")
+		case "discardOffer":
+			if pc.SignalingState() != SignalingStateStable {
+				v.Label("skip:not-stable")
+				break
+			}
+			off, e := pc.CreateOffer(nil)
+			if e != nil {
+				v.Label("discard-offer:create-offer-error")
+				break
+			}
+			onDesc(vfFamBPEvent{Peer: p, Kind: "offer", Text: off.SDP, Round: round, Step: i, Discarded: true})
+			if op.A%2 == 1 {
+				if e := pc.SetLocalDescription(off); e != nil {
+					v.Label("discard-offer:set-local-error")
+					v.Logf("step %d discardOffer(peer %d): SetLocalDescription: %v", i, p, e)
+					return st
+				}
+				if e := pc.SetLocalDescription(SessionDescription{Type: SDPTypeRollback}); e != nil {
+					v.Label("discard-offer:rollback-error")
+					v.Logf("step %d discardOffer(peer %d): rollback: %v", i, p, e)
+					return st
+				}
+				v.Label("discard-offer:rolled-back")
+			} else {
+				v.Label("discard-offer:superseded")
+			}
 		case "addTrack":
 			trackN++
 			var tl TrackLocal
@@ -2286,7 +2313,9 @@ func vfFamBRunPair(v *vfT, c vfFamBPCase, onDesc func(ev vfFamBPEvent), onStep f
 // vfFamBGenPair draws a pair history with minRounds..maxRounds negotiate ops spread over it.
 // asym: the peers get different codec sets (audio-only, video-only, single codec), so that one
 // side rejects m-sections the other offers.
-func vfFamBGenPair(r *rapid.T, minRounds, maxRounds int, customME bool, asym bool) vfFamBPCase {
+// discards: offers that are created (optionally applied) and then superseded or rolled back are
+// interleaved with the completed rounds.
+func vfFamBGenPair(r *rapid.T, minRounds, maxRounds int, customME bool, asym bool, discards bool) vfFamBPCase {
 	var c vfFamBPCase
 	kinds := [2][]string{{"audio", "video"}, {"audio", "video"}}
 	for i := 0; i < 2; i++ {
@@ -2374,6 +2403,22 @@ func vfFamBGenPair(r *rapid.T, minRounds, maxRounds int, customME bool, asym boo
 		c.Ops = append(c.Ops, op)
 	}
 	for k := 0; k < rounds; k++ {
+		if discards && k > 0 && rapid.IntRange(0, 2).Draw(r, "discardPattern") == 0 {
+			// addition, an offer that is never answered, another addition, then the real offer
+			for j := 0; j < 2; j++ {
+				add := genLocal()
+				add.Peer = offerer
+				if add.Op == "removeTrack" || add.Op == "stop" || add.Op == "dc" {
+					add.Op, add.Kind, add.Dir = "addKind", kinds[offerer][0], "recvonly"
+				}
+				c.Ops = append(c.Ops, add)
+				if j == 0 {
+					c.Ops = append(c.Ops, vfFamBPOp{Op: "discardOffer", Peer: offerer, A: rapid.IntRange(0, 1).Draw(r, "rollback")})
+				}
+			}
+		} else if discards && rapid.IntRange(0, 4).Draw(r, "strayDiscard") == 0 {
+			c.Ops = append(c.Ops, vfFamBPOp{Op: "discardOffer", Peer: rapid.IntRange(0, 1).Draw(r, "discardPeer"), A: rapid.IntRange(0, 1).Draw(r, "rollback")})
+		}
 		c.Ops = append(c.Ops, vfFamBPOp{Op: "negotiate", Peer: offerer})
 		if rapid.IntRange(0, 3).Draw(r, "sameOffererAgain") != 0 {
 			offerer = 1 - offerer
